@@ -13,7 +13,7 @@ import (
 func init() {
 	register(&Property{
 		ID:          "C19",
-		Explanation: "utils.NewExtractor is read as a decision table (paths to each return, conditions canonicalised to eq(<const>) / prefix(<const>) / empty(suffix)): 'client.ip', 'request.host' and 'request.header.<X>' each return a nil error and a specific extractor, every other path returns a non-nil error. The extractor bound to client.ip must return, as token, exactly the host result of an allow-listed host:port parser (net.SplitHostPort, netip.ParseAddrPort) applied to req.RemoteAddr, and an error on the parser's error edge; a first-colon splitter over RemoteAddr is a definite violation, any other derivation is UNDECIDED (fails, naming the idiom). request.host must return req.Host itself, request.header.X must return req.Header.Get(X) with X the suffix of the variable after the constant prefix. Every built-in extractor returns the constant amount 1 on its success paths. Value provenance is followed on SSA def-use chains; nothing is executed.",
+		Explanation: "utils.NewExtractor is read as a decision table (paths to each return, conditions canonicalised to eq(<const>) / prefix(<const>) / empty(suffix)): 'client.ip', 'request.host' and 'request.header.<X>' each return a nil error and a specific extractor, every other path returns a non-nil error. The extractor bound to client.ip must return, as token, exactly the host result of an allow-listed host:port parser (net.SplitHostPort, netip.ParseAddrPort) applied to req.RemoteAddr, and an error on the parser's error edge; a first-colon splitter over RemoteAddr is a definite violation, any other derivation is UNDECIDED (fails, naming the idiom). request.host must return req.Host itself, request.header.X must return req.Header.Get(X) with X the suffix of the variable after the constant prefix. Every built-in extractor returns the constant amount 1 on its success paths. Value provenance is followed on SSA def-use chains; nothing is executed. R1 also: the success return of client.ip lies on the host != \"\" edge.",
 		NotDecided: []string{
 			"behaviour of net.SplitHostPort itself on malformed addresses (stdlib, trusted): only that its error edge returns an error is checked",
 		},
@@ -398,5 +398,6 @@ func mutantsC19() []Mutant {
 		{Name: "header-map-lookup", File: f, Old: "\t\treturn req.Header.Get(header), 1, nil", New: "\t\tif v := req.Header[header]; len(v) > 0 {\n\t\t\treturn v[0], 1, nil\n\t\t}\n\t\treturn \"\", 1, nil", Expect: "C19.R2"},
 		{Name: "ignore-parse-error", File: f, Old: "\tif err != nil || host == \"\" {", New: "\t_ = err\n\tif host == \"\" && false {", Expect: "C19.R1"},
 		{Name: "clientip-parseip", File: f, Old: "\treturn host, 1, nil", New: "\tip := net.ParseIP(host)\n\tif ip == nil {\n\t\treturn \"\", 0, fmt.Errorf(\"bad ip\")\n\t}\n\treturn ip.String(), 1, nil", Expect: "C19.R1"},
+		{Name: "empty-host-accepted", File: "utils/source.go", Old: "\tif err != nil || host == \"\" {", New: "\tif err != nil {", Expect: "C19.R1"},
 	}
 }
